@@ -153,6 +153,16 @@ class Algebra:
             return self.glog(self.nf(e.args[0]))
         if isinstance(e, sp.exp):
             return self.gexp(self.nf(e.args[0]))
+        if isinstance(e, (sp.sinh, sp.cosh, sp.tanh)):
+            E = self.gexp(self.nf(e.args[0]))
+            if isinstance(e, sp.sinh):
+                return (E - 1 / E) / 2
+            if isinstance(e, sp.cosh):
+                return (E + 1 / E) / 2
+            return (E - 1 / E) / (E + 1 / E)
+        if isinstance(e, sp.asinh):
+            u = self.nf(e.args[0])
+            return self.glog(u + self.gpow(u ** 2 + 1, sp.Rational(1, 2)))
         if isinstance(e, sp.erf):
             a = sp.cancel(sp.together(self.nf(e.args[0])))
             if a == 0:
@@ -349,7 +359,8 @@ class Algebra:
 
 # ================================================================================== translator
 NP_UNARY = {"np.log": sp.log, "np.exp": sp.exp, "numpy.log": sp.log, "numpy.exp": sp.exp, "math.log": sp.log,
-            "math.exp": sp.exp}
+            "math.exp": sp.exp, "np.sinh": sp.sinh, "np.cosh": sp.cosh, "np.tanh": sp.tanh, "np.arcsinh": sp.asinh,
+            "math.sinh": sp.sinh, "math.cosh": sp.cosh, "math.tanh": sp.tanh, "math.asinh": sp.asinh}
 IDENT_CALLS = {"np.array", "np.asarray", "np.float64", "float", "np.copy", "np.atleast_1d"}
 ONES = {"np.ones", "np.ones_like"}
 ZEROS = {"np.zeros", "np.zeros_like"}
